@@ -3,6 +3,25 @@ import vlib
 from checks import common
 
 LEVEL = "proof"
+HARNESS = {"xorwow": ["corecel", "celeritas"]}
+MANIFEST = {
+    "category": "proof",
+    "technique": "Lean 4 proof: GF(2)[z]/(P) certificates by kernel evaluation over regenerated "
+                 "jump tables + induction; differential correspondence model vs real engine",
+    "text": "Theorems over the model for all 2^160 states, all Weyl values and all n<2^64: "
+            "discard n = n draws; discard_subsequence k = k*2^67 steps; exact period 2^160-1 "
+            "(Cayley-Hamilton + order certificates + Lucas primality of the factors); streams "
+            "of different (event,slot) disjoint; canonical numerator < 2^53. Jump tables and "
+            "all constants are regenerated from the source each run so a changed table breaks "
+            "a kernel-checked certificate; the engine's control flow is hand-modelled and "
+            "compared with the real XorwowRngEngine/XorwowRngParams/reseed_rng on random and "
+            "adversarial op scripts; impl-side oracle discard(a+b)=discard(a);discard(b) etc. "
+            "searches a failing input when anything breaks.",
+    "design_ref": "DESIGN.md §6 C13",
+    "note": "Hypotheses: n,k < 2^64 (ull_int); streams_disjoint assumes non-zero seed state and "
+            "event*size+slot < 2^64 (beyond that reseed_rng wraps). IEEE exactness of n*2^-53 "
+            "for n<2^53 is assumed, checked at run time by the harness. " ,
+}
 M64 = (1 << 64) - 1
 
 
@@ -155,7 +174,8 @@ def run(ctx):
     # translator cross-check: tables of the running code vs Generated
     rc, dump = vlib.sh([exe, "--tables"])
     try:
-        tj, ts = vlib.translate.xorwow_tables()
+        from gen import xorwow as _gx
+        tj, ts = _gx.xorwow_tables()
         want = [" ".join("%08x" % w for w in r) for r in tj + ts]
         got = [l.strip() for l in dump.strip().split("\n")]
         if want != got:
@@ -185,7 +205,7 @@ def run(ctx):
             bounds.append((len(flat), len(flat) + len(s)))
             flat += s
         _, oh = vlib.run_lines([exe], flat)
-        _, om = vlib.run_lines([vlib.MODEL_EXE, "xorwow"], flat)
+        _, om = vlib.run_lines([vlib.model_exe("C13")], flat)
         for (a, b), s in zip(bounds, scripts):
             d = vlib.first_diff(oh[a:b], om[a:b])
             if d is not None:
